@@ -261,14 +261,20 @@ impl Qcow2Header {
             return Err("Not a qcow2 file".into());
         }
 
-        if header.version < 2 {
+        if header.version != 2 && header.version != 3 {
             let v = header.version;
             return Err(format!("qcow2 v{v} is not supported").into());
         }
 
-        // refcount_order is always 4 for version 2
+        // version 2 header is 72 bytes long: no feature fields, and
+        // refcount_order is always 4
         if header.version == 2 {
+            header.incompatible_features = 0;
+            header.compatible_features = 0;
+            header.autoclear_features = 0;
             header.refcount_order = 4;
+            header.header_length = 72;
+            header.compression_type = 0;
         }
 
         let cluster_bits = header.cluster_bits;
